@@ -76,6 +76,13 @@ def main():
     res.append(semantic('closed2lean.py','shirokov k / N',[(L,"Ck = (N / k) * Uk.value[0]","Ck = (k / N) * Uk.value[0]")]))
     res.append(semantic('closed2lean.py','shirokov range(1, N+1)',[(L,"for k in range(1, N):\n                Ck","for k in range(1, N + 1):\n                Ck")]))
     MVF='clifford/_multivector.py'
+    PA='clifford/_parser.py'
+    res.append(harmless('parser2lean.py','line offset: pos - 1 - len(line)',[(PA,"new_pos = pos - len(line) - 1","new_pos = pos - 1 - len(line)")]))
+    res.append(semantic('parser2lean.py','line offset: newline not counted',[(PA,"new_pos = pos - len(line) - 1","new_pos = pos - len(line)")]))
+    res.append(semantic('parser2lean.py','line offset: column from 0',[(PA,"return line_i, pos + 1, line","return line_i, pos, line")]))
+    res.append(semantic('parser2lean.py','line offset: lines from 0',[(PA,"enumerate(lines, 1)","enumerate(lines, 0)")]))
+    res.append(semantic('parser2lean.py','lexicon: wedge before coeff',[(PA,"r'\\^',\n        lambda s, t: ('wedge', s.match, None)","r'\\^\\^',\n        lambda s, t: ('wedge', s.match, None)")]))
+    res.append(semantic('parser2lean.py','lexicon: sign payload swapped',[(PA,"1 if t == '+' else -1","-1 if t == '+' else 1")]))
     IO='clifford/io.py'
     res.append(harmless('io2lean.py','io: unchanged',[]))
     res.append(semantic('io2lean.py','io: json transposed data without flag',[(IO,"dset_data['data'] = mv_array.T.tolist()\n        dset_data['transpose'] = True","dset_data['data'] = mv_array.T.tolist()\n        dset_data['transpose'] = False")]))
